@@ -207,16 +207,22 @@ bool huge_free(void* p) {
 // few hundred bytes per input byte, geometric container growth at most doubles the total), so 128 MiB is far beyond
 // any terminating parse. When a guarded parse is running the evaluation is left through the escape hatch of do_parse
 // (class `hang`); otherwise the process exits with code 79.
+// The same goes for the NUMBER of requests within one guarded parse (a loop that allocates and frees a node per
+// iteration): a parse of <= 8 KiB needs a few allocations per input byte; 400000 is more than ten times that.
 constexpr uint64_t RUNAWAY = 128ull << 20;
+constexpr uint64_t RUNAWAY_CALLS = 400000;
 uint64_t g_cum_alloc = 0;
+uint64_t g_parse_calls = 0;
 bool g_cum_armed = false;
 void* do_new(size_t n, size_t align, bool nothrow) {
   void* p;
-  if (g_cum_armed && n <= HUGE_ALLOC && (g_cum_alloc += n) > RUNAWAY) {
+  if (g_cum_armed && n <= HUGE_ALLOC &&
+      ((g_cum_alloc += n) > RUNAWAY || (vs::g_escape_armed && ++g_parse_calls > RUNAWAY_CALLS))) {
     g_cum_armed = false;
     if (vs::g_escape_armed) {
       vs::compute_spin_site();
-      snprintf(vs::g_escape_msg, sizeof vs::g_escape_msg, "more than %llu MiB requested through operator new", (unsigned long long)(RUNAWAY >> 20));
+      snprintf(vs::g_escape_msg, sizeof vs::g_escape_msg, "%llu MiB in %llu requests through operator new so far", (unsigned long long)(g_cum_alloc >> 20),
+               (unsigned long long)g_parse_calls);
       siglongjmp(vs::g_escape_jmp, 3);
     }
     static const char m[] = "VERIF-ALLOC-RUNAWAY: too much memory requested during one evaluation\n";
@@ -264,6 +270,11 @@ void operator delete[](void* p, std::align_val_t, const std::nothrow_t&) noexcep
 namespace vs {
 void alloc_guard_reset(bool armed) {
   g_cum_alloc = 0;
+  g_parse_calls = 0;
   g_cum_armed = armed;
+}
+void alloc_guard_parse_begin() {
+  g_parse_calls = 0;
+  g_cum_armed = true;
 }
 }  // namespace vs
